@@ -8,4 +8,4 @@ Definition rt_env_template (classify : N -> cclass) (j : json) := roundtrip_doc 
 Definition rt_job (classify : N -> cclass) (v : mval) := roundtrip classify "Job" v.
 Definition parse_job_ok (classify : N -> cclass) (j : json) : outcome bool :=
   match parse_any classify "Job" j with Ok _ => Ok true | Raise ValueError => Ok false | Raise e => Raise e end.
-Extraction "Model.ml" exn_eqb ascii_ok ascii_class rt_job_template rt_env_template rt_job parse_job_ok export sumZ.
+Extraction "Model.ml" exn_eqb ascii_ok ascii_class rt_job_template rt_env_template rt_job parse_job_ok export create_job_verdict sumZ.
